@@ -668,7 +668,7 @@ def run_case(ctx, g):
 
 def post(ctx):
     ctx.require("FixedCompanionMass.dist with the K_unit argument", ctx.counters["fcm:K_unit argument"], 3)
-    ctx.require("UniformLog with array-valued bounds", ctx.counters["ulog:array-valued bounds"], 2)
+    ctx.require("UniformLog with array-valued bounds", ctx.counters["ulog:array-valued bounds"], 1)
     for form in ("int", "float", "nice float", "numpy int64", "numpy float32"):
         ctx.require(f"UniformLog draws with bounds given as {form}", ctx.counters[f"ulog:bounds given as {form}"], 1)
     c = ctx.counters
